@@ -312,6 +312,10 @@ func check(id, tier string, only int) int {
 	// ---- race logs
 	raceViols, raceBlocks := scanRaceLogs(bdir)
 	for _, v := range raceViols {
+		if v.Sig == "HARNESS-RACE" {
+			incomplete = append(incomplete, "the monitor itself has a data race (not a verdict on the property): "+oneLine(fmt.Sprint(v.Replay)))
+			continue
+		}
 		viols = append(viols, v)
 		violCounts[v.Sig]++
 	}
@@ -740,6 +744,11 @@ func scanRaceLogs(bdir string) ([]mon.Violation, int) {
 				}
 			}
 			if len(frames) == 0 {
+				// a race between harness goroutines only: the monitor itself is broken, not the property
+				if !seen["harness"] {
+					seen["harness"] = true
+					out = append(out, mon.Violation{Sig: "HARNESS-RACE", Msg: "race detector report without dapr/kit frames (monitor bug)", Case: -1, Replay: map[string]any{"report": trunc(blk, 6000), "log": f}})
+				}
 				continue
 			}
 			if len(frames) > 2 {
